@@ -22,6 +22,8 @@ FINDING_DEV = {
     "KF-C02-11": "Odt!TextboxParagraphsGlued",
     "KF-C02-12": "Ppt!RawFallback",
     "KF-C02-13": "Rtf!RawNewlineIsText",
+    "KF-C02-14": "Odp!TextBoxesAfterBody",
+    "KF-C02-15": "Ppt!TextBoxesAfterBody",
 }
 
 
